@@ -98,6 +98,15 @@ CHECKS.update({
         ref='3/C12'),
 })
 
+CHECKS.update({
+    'C08': dict(
+        technique='property-based testing of generated query/withdrawal interleavings in the simulator; invariant oracle over the independently decoded trace and a peer browser',
+        text=SIM + 'queries placed on a grid around async_unregister_service / async_close (answers immediate, aggregated, TC-held or in the 1 s protection queue); '
+             'exactly three complete TTL-0 goodbyes 125 ms apart, and afterwards no datagram carries a withdrawn record with TTL > 0; a peer browser on a second host must not re-add.',
+        note='5 s observation window after the withdrawal; own announcements completed before the withdrawal',
+        ref='3/C08'),
+})
+
 NOT_YET = {
 }
 
